@@ -201,3 +201,12 @@ package mkvs
 //@   precall ProofVerifier\)\.VerifyProof$ :: argIs(2, proof) && ((argAs[hash.Hash](1) == ptr.Hash && dstPtr == ptr) || (argAs[hash.Hash](1) == c.syncRoot.Hash && dstPtr == c.pendingRoot))
 //@   precall MergeVerifiedSubtree$ :: argIs(1, dstPtr) && argIs(2, subtree) && err == nil
 //@   note a fetched proof is verified against a hash this node already trusts - the hash of the pointer being dereferenced, or the hash of the sync root - and the verified subtree is merged at the corresponding pointer (the dereferenced pointer, or the pending root); nothing is merged before verification succeeded
+
+// ---- applying a received write log (C13): each entry is applied as what it says ----
+
+//@ func tree.ApplyWriteLog
+//@   props C13
+//@   requires t != nil
+//@   precall mkvs\.tree\)\.Remove$ :: entry.Value == nil && argIs(1, entry.Key)
+//@   precall mkvs\.tree\)\.Insert$ :: entry.Value != nil && argIs(1, entry.Key) && argIs(2, entry.Value)
+//@   note an entry with a nil value is applied as a removal of exactly its key, any other entry as an insertion of exactly its key and value; nothing else is written by the loop
